@@ -455,6 +455,10 @@ func genPositionStep(t *rapid.T, hist []uStep, maxPieces, maxPlies int) (uStep, 
 		p = hx.GenStart(t, maxPieces)
 		st.Fen = p.FEN()
 	}
+	// a GUI sends the whole game so far: now and then a long move list
+	if rapid.IntRange(0, 3).Draw(t, "longGame") == 0 {
+		maxPlies *= 8
+	}
 	pl := hx.GenPlayoutFrom(t, p, maxPlies, 1)
 	st.Moves = pl.Moves
 	ps, _ := pl.Replay()
@@ -641,6 +645,74 @@ func propC12NewGame(c newGameCase, o *hx.Obs) *hx.Failure {
 	return nil
 }
 
+// ---- setoption: every option, both values ------------------------------------------------------
+// One session without searches: each option is set to a value and back in a drawn order; after every
+// command exactly the configuration field the option is documented to control has the given value
+// and no other field of the search / evaluation configuration has changed.
+
+type optionsCase struct {
+	Steps []uStep `json:"steps"` // Kind "setoption"
+}
+
+func propC12Options(c optionsCase, o *hx.Obs) *hx.Failure {
+	save := config.Settings
+	defer func() { config.Settings = save }()
+	u := hx.StartUci()
+	defer u.Quit(20 * time.Second)
+	for i, st := range c.Steps {
+		before, f := printConfig(u)
+		if f != nil {
+			return f
+		}
+		line := "setoption name " + st.Name
+		if st.Value != "" {
+			line += " value " + st.Value
+		}
+		u.Send(line)
+		after, f := printConfig(u)
+		if f != nil {
+			return f
+		}
+		if p, stk := u.LoopPanicked(); p != nil {
+			return hx.Failf("C12/panic", "'%s': %v\n%s", line, p, stk)
+		}
+		field := optionField[st.Name]
+		for k, v := range after {
+			if before[k] != v && k != field {
+				return hx.Failf("C12/setoption/changes-other-option", "step %d: '%s' changed %s from %s to %s", i, line, k, before[k], v)
+			}
+		}
+		if field != "" && after[field] != st.Value {
+			return hx.Failf("C12/setoption/not-applied", "step %d: '%s': the configuration has %s = %s", i, line, field, after[field])
+		}
+		o.Evals(1)
+		if field != "" && before[field] != after[field] {
+			o.NTKey(line)
+		}
+	}
+	return nil
+}
+
+func genOptionsCase(t *rapid.T) optionsCase {
+	var c optionsCase
+	names := rapid.Permutation(optionNames).Draw(t, "order")
+	first := rapid.Bool().Draw(t, "firstValue")
+	for round := 0; round < 2; round++ {
+		for _, n := range names {
+			st := uStep{Kind: "setoption", Name: n}
+			switch {
+			case optionField[n] == "":
+			case n == "Hash":
+				st.Value = fmt.Sprint(rapid.IntRange(1, 8).Draw(t, "hashMB"))
+			default:
+				st.Value = fmt.Sprint(first != (round == 1))
+			}
+			c.Steps = append(c.Steps, st)
+		}
+	}
+	return c
+}
+
 func TestC12(t *testing.T) {
 	r := hx.NewRec(t, "C12")
 	defer r.Finish()
@@ -648,6 +720,8 @@ func TestC12(t *testing.T) {
 	r.Assume("protocol-valid sessions: go / position / setoption / ucinewgame only while no search is running (the GUI waits for bestmove or sends stop first); ponderhit only during a ponder search; ponder searches carry a move time")
 	r.Assume("promptness allowances: readyok 5 s, bestmove after stop 2 s (typical latencies are below 10 ms); position is read through the verif accessor after an isready/readyok synchronisation")
 	r.Assume("option values inside the announced ranges; Hash <= 8 MB (larger tables are resource use, not protocol behaviour)")
+
+	hx.Sub(r, "setoption-all", r.N(3, 40), genOptionsCase, propC12Options)
 
 	hx.Sub(r, "sessions", r.N(70, 1200), func(t *rapid.T) uciCase { return genUciCase(t, 14) }, propC12)
 
